@@ -1,16 +1,17 @@
 #!/bin/sh
 # usage: harness/seedtest.sh <patch.diff> <Cxx> [<Cyy> ...]   applies the patch to /repo, runs the quick checks, reverts.
 patch="$1"; shift
-cd /repo || exit 2
+REPO=${SEED_REPO:-/repo}; VERIF=${SEED_VERIF:-/verif}
+cd "$REPO" || exit 2
 if [ -n "$(git status --porcelain --untracked-files=no)" ]; then echo "repo not clean"; exit 2; fi
 git apply "$patch" || { echo "patch does not apply"; exit 2; }
-cd /verif
+cd "$VERIF"
 for p in "$@"; do
-  ./check "$p" --tier quick > /tmp/seedtest.$$.out 2>&1; rc=$?
+  PSD_REPO="$REPO" ./check "$p" --tier quick > /tmp/seedtest.$$.out 2>&1; rc=$?
   echo "== $p exit=$rc"; grep -E "^(VIOLATION|INFRA)" /tmp/seedtest.$$.out | head -8; grep -E "^KNOWN-FINDING" /tmp/seedtest.$$.out | cut -c1-160 | head -12
 done
 rm -f /tmp/seedtest.$$.out
-git -C /repo checkout -- . 
+git -C "$REPO" checkout -- . 
 # the run on the changed source rewrote the regenerated tables and the evidence: put the committed ones back
-git -C /verif checkout -- lean/PsdVerif/Generated evidence 2>/dev/null
-git -C /repo status --porcelain --untracked-files=no
+git -C "$VERIF" checkout -- lean/PsdVerif/Generated evidence 2>/dev/null
+git -C "$REPO" status --porcelain --untracked-files=no
